@@ -3,7 +3,8 @@
 Generator: `classes` profile (pbt/genclass.py).  Oracle: pbt/ref_class.py predicts the complete echo trace (constructors,
 field initialisers, methods and destructors all trace through T.tr).  Compared through the real CLI: exit status, echoed
 lines (numeric tokens numerically), or the runtime error kind.
-Kept out because undocumented: overload sets in which "most specific" is not unique parameter-wise; reference cycles;
+Kept out because undocumented: overload sets in which "most specific" is not unique parameter-wise (the widening family below
+only generates calls where it is); reference cycles;
 destructor-bearing objects held in fields; temporaries of destructor-bearing classes.
 """
 import sys
@@ -308,6 +309,58 @@ def overload_expected(case):
     return out
 
 
+# ------------------------------------------------------------------ widening overloads (seeded change C08-a4)
+# Two-parameter overloads over {int, long} on a method and on constructors, called with int / long ARGUMENTS that need the
+# documented int -> long widening.  Only calls with a parameter-wise unique most specific applicable overload are generated
+# (the others are the undocumented region named in the module docstring).  The analyser's choice (static types) must run.
+
+W_SIGS = [("int", "int"), ("int", "long"), ("long", "int"), ("long", "long")]
+
+
+def _w_pick(sigs, args):
+    le = lambda a, b: a == b or (a == "int" and b == "long")
+    app = [sg for sg in sigs if all(le(a, t) for a, t in zip(args, sg))]
+    best = [c for c in app if all(all(le(x, y) for x, y in zip(c, d)) for d in app)]
+    return best[0] if len(best) == 1 else None
+
+
+@st.composite
+def widen_case(draw):
+    sigs = draw(st.lists(st.sampled_from(W_SIGS), min_size=2, max_size=4, unique=True))
+    csigs = draw(st.lists(st.sampled_from(W_SIGS), min_size=2, max_size=4, unique=True))
+    calls = []
+    for _ in range(draw(st.integers(2, 6))):
+        args = (draw(st.sampled_from(["int", "long"])), draw(st.sampled_from(["int", "long"])))
+        ctor = draw(st.booleans())
+        if _w_pick(csigs if ctor else sigs, args) is not None:
+            calls.append({"args": list(args), "ctor": ctor, "lit": draw(st.booleans())})
+    return {"kind": "widen", "sigs": [list(x) for x in sigs], "csigs": [list(x) for x in csigs], "calls": calls,
+            "virtual": draw(st.booleans())}
+
+
+def widen_program(case):
+    kw = "virtual " if case["virtual"] else ""
+    body = [f"public constructor({a} a, {b} b) -> W {{ echo(\"W({a},{b})\"); return this; }}" for a, b in case["csigs"]]
+    body += [f"public {kw}function m({a} a, {b} b) -> int {{ echo(\"m({a},{b})\"); return 1; }}" for a, b in case["sigs"]]
+    first = case["csigs"][0]
+    mk = ", ".join("1" if t == "int" else "1L" for t in first)
+    main = ["int vi = 7;", "long vl = 8L;", f"W w = new W({mk});"]
+    for n, c in enumerate(case["calls"]):
+        args = ", ".join((("3" if t == "int" else "4L") if c["lit"] else ("vi" if t == "int" else "vl")) for t in c["args"])
+        main.append(f"W c{n} = new W({args});" if c["ctor"] else f"echo(w.m({args}));")
+    return "class W {\n    " + "\n    ".join(body) + "\n}\nfunction main() -> void {\n    " + "\n    ".join(main) + "\n}\n"
+
+
+def widen_expected(case):
+    out = ["W(" + ",".join(case["csigs"][0]) + ")"]
+    for c in case["calls"]:
+        if c["ctor"]:
+            out.append("W(" + ",".join(_w_pick([tuple(x) for x in case["csigs"]], c["args"])) + ")")
+        else:
+            out += ["m(" + ",".join(_w_pick([tuple(x) for x in case["sigs"]], c["args"])) + ")", "1"]
+    return out
+
+
 class C08(Check):
     prop = "C08"
     rule = ("class programs: hierarchies (depth<=4), tracing field initialisers, constructors with explicit/implicit super, "
@@ -378,6 +431,19 @@ class C08(Check):
             return self.generic_run(p, sc, stats)
         if p.get("kind") == "overload":
             return self.overload_run(p, sc, stats)
+        if p.get("kind") == "widen":
+            src, want = widen_program(p), widen_expected(p)
+            r = progrun.run_cli(self.drv, sc, src)
+            if r.proc.timeout:
+                return None
+            if stats is not None:
+                stats.record(p, any("long" in sg and a != list(sg) for c in p["calls"] for a in [c["args"]]
+                                    for sg in [_w_pick([tuple(x) for x in (p["csigs"] if c["ctor"] else p["sigs"])], a)]),
+                             tags=["widening_overload_family"])
+            got = list(r.stdout_lines)
+            if r.proc.crashed() or r.rc != 0 or got != want:
+                return {"why": f"widening overload program: rc={r.rc} {r.stderr_lines[-1:]}; expected {want}, got {got}", "source": src}
+            return None
         try:
             ref = ref_class.run_reference(p)
         except ref_classic.Undocumented:
@@ -435,6 +501,9 @@ def _worker(widx, wseed, tier, check):
         if f:
             failures.append(f)
         f = hyp_search(overload_case(), prop, common.derive_seed(wseed, "overload"), 120 if tier == "quick" else 3000, stats)
+        if f:
+            failures.append(f)
+        f = hyp_search(widen_case(), prop, common.derive_seed(wseed, "widen"), 30 if tier == "quick" else 600, stats)
         if f:
             failures.append(f)
     return {"stats": stats.export(), "failures": failures}
